@@ -532,15 +532,149 @@ func ladnDecodedJob(w *core.World) Job {
 		}}}
 }
 
+// nssaiStepJob: RequestedNssaiToModels on ANY contents and any number of entries. The loop is cut at its invariant and
+// one iteration is compared with the (arbitrary) state at the loop head: an iteration that reaches the back edge has
+// read a legal length octet L at `offset`, the entry lies within the contents (offset + L + 1 <= length), `offset`
+// advances by exactly L + 1 (so consecutive entries tile the contents), the result list grows by exactly one entry,
+// and that entry is the S-NSSAI value found at `offset` (SST at +1; SD at +2 and mapped SST / SD at +5 / +6 as far
+// as L says they are present). By induction over the iterations (paper step) every returned entry of a list of any
+// length is the value found at its offset. The loop-carried variables are found through the header phis' source names.
+func nssaiStepJob(w *core.World, base func(fn *ssa.Function, ord int) *sym.LoopSpec) (Job, func(fn *ssa.Function, ord int) *sym.LoopSpec) {
+	fn := w.Funcs["nasConvert.RequestedNssaiToModels"]
+	name := "nasConvert.RequestedNssaiToModels"
+	var buf sym.Content
+	var n *Term
+	carried := func(headFr, fr *sym.Frame, vname string) (sym.Value, sym.Value, bool) {
+		hs := sym.LoopHeaders(fn)
+		if len(hs) == 0 {
+			return nil, nil, false
+		}
+		h := hs[0]
+		for _, in := range h.Instrs {
+			phi, ok := in.(*ssa.Phi)
+			if !ok || phi.Comment != vname {
+				continue
+			}
+			v0, ok0 := headFr.Env[phi]
+			if !ok0 {
+				return nil, nil, false
+			}
+			inLoop := sym.LoopBlocks(h)
+			var back []ssa.Value
+			for i, pr := range h.Preds {
+				if inLoop[pr] {
+					back = append(back, phi.Edges[i])
+				}
+			}
+			if len(back) != 1 {
+				return nil, nil, false
+			}
+			v1, ok1 := fr.Env[back[0]]
+			return v0, v1, ok1
+		}
+		return nil, nil, false
+	}
+	loops := func(f *ssa.Function, ord int) *sym.LoopSpec {
+		ls := base(f, ord)
+		if f != fn || ord != 0 || ls == nil {
+			return ls
+		}
+		ls.OnBackEdge = func(fx *sym.FnExec, head *sym.State, headFr *sym.Frame, fr *sym.Frame, st *sym.State) {
+			o0v, o1v, okO := carried(headFr, fr, "offset")
+			l0v, l1v, okL := carried(headFr, fr, "requestNssai")
+			if !okO || !okL {
+				fx.Oblige(st, name+"#step.offset", "inv.preserve", False, "", "loop-carried offset / result list not found at the back edge")
+				return
+			}
+			off0, off1 := o0v.(sym.Scalar).T, o1v.(sym.Scalar).T
+			list0, list1 := l0v.(sym.SliceV), l1v.(sym.SliceV)
+			L := buf.Elem(off0)
+			fx.Oblige(st, name+"#step.offset", "inv.preserve",
+				And(snLenOK(L), Eq(off1, Add(off0, nssaiStep(L))), ULe(off1, n), ULt(off0, n)), "",
+				"an iteration that continues has read a legal length octet, its entry lies within the contents, and the offset advances by exactly length + 1")
+			g := []*Term{Eq(list1.Len, Add(list0.Len, bv64(1)))}
+			// the appended entry: the one-element argument list of the loop's only append call (the result list itself
+			// is a slice of structs of symbolic length, whose contents the engine does not track)
+			var ent sym.Value
+			nApp := 0
+			for _, b := range fn.Blocks {
+				for _, in := range b.Instrs {
+					c, ok := in.(*ssa.Call)
+					if !ok {
+						continue
+					}
+					if bi, ok := c.Call.Value.(*ssa.Builtin); !ok || bi.Name() != "append" || len(c.Call.Args) != 2 {
+						continue
+					}
+					nApp++
+					if av, ok := fr.Env[c.Call.Args[1]].(sym.SliceV); ok && av.Obj != nil && av.Len.IsConst() && av.Len.Val == 1 && av.Off.IsConst() {
+						if a, ok := st.Heap[av.Obj].(sym.ArrS); ok && int(av.Off.Val) < len(a.Elems) {
+							ent = a.Elems[av.Off.Val]
+						}
+					}
+					if r, ok := fr.Env[c].(sym.SliceV); !ok || r.Obj != list1.Obj {
+						ent = nil // the list carried to the next iteration is not this append's result
+					}
+				}
+			}
+			if nApp != 1 {
+				ent = nil
+			}
+			e, ok := ent.(sym.StructV)
+			if !ok {
+				fx.Oblige(st, name+"#step.entry", "inv.preserve", False, "", "the loop does not carry the result of a single one-element append to the next iteration")
+				return
+			}
+			at := func(d uint64) *Term { return buf.Elem(Add(off0, bv64(d))) }
+			is := func(v uint64) *Term { return Eq(L, BVC(8, v)) }
+			snssai := func(p sym.Value) (nilT *Term, sst *Term, sd sym.StrV) {
+				pv := p.(sym.PtrV)
+				if pv.Obj == nil {
+					return True, BVC(32, 0), sym.StrV{C: sym.CZero{W: 8}, Off: bv64(0), Len: bv64(0)}
+				}
+				sv := st.Heap[pv.Obj].(sym.StructV)
+				return pv.Nil, sv.F[0].(sym.Scalar).T, sv.F[1].(sym.StrV)
+			}
+			sdAt := func(sd sym.StrV, d uint64) *Term {
+				return And(Eq(sd.Len, bv64(6)), hexOfT(sd, 0, at(d)), hexOfT(sd, 2, at(d+1)), hexOfT(sd, 4, at(d+2)))
+			}
+			sNil, sSst, sSd := snssai(e.F[0])
+			hNil, hSst, hSd := snssai(e.F[1])
+			g = append(g, Not(sNil), Eq(sSst, ZExt(32, at(1))),
+				Implies(Or(is(1), is(2)), Eq(sSd.Len, bv64(0))),
+				Implies(Or(is(4), is(5), is(8)), sdAt(sSd, 2)),
+				Implies(Or(is(1), is(4)), hNil),
+				Implies(is(2), And(Not(hNil), Eq(hSst, ZExt(32, at(2))), Eq(hSd.Len, bv64(0)))),
+				Implies(is(5), And(Not(hNil), Eq(hSst, ZExt(32, at(5))), Eq(hSd.Len, bv64(0)))),
+				Implies(is(8), And(Not(hNil), Eq(hSst, ZExt(32, at(5))), sdAt(hSd, 6))))
+			fx.Oblige(st, name+"#step.entry", "inv.preserve", And(g...), "",
+				"an iteration appends exactly one entry, the S-NSSAI value of 9.11.2.8 found at the offset it started from")
+		}
+		return ls
+	}
+	job := Job{Fn: fn, Spec: &sym.FnSpec{Tag: "any octets: step relation of the decoder loop",
+		Args: func(fx *sym.FnExec, st *sym.State) []sym.Value {
+			p, b, l := mkNssaiArg(fx, st, fn.Params[0].Type())
+			buf, n = b, l
+			return []sym.Value{p}
+		}}}
+	return job, loops
+}
+
 func c13(w *core.World, rep *core.Report) {
 	std(rep)
 	thorough := rep.Tier == "thorough"
-	rep.Explain = "Per-entry converters (SnssaiToNas, RejectedSnssaiToNas, SnssaiToModels, snssaiToModels) carry contracts stating the octets / fields of TS 24.501 9.11.2.8 and 9.11.3.46 and are proved for all values. The list encoders and decoders are executed symbolically with the loops unrolled on lists of every length up to the bound stated per function (entries fully symbolic: SST, SD present or absent, PLMN digits with 2- or 3-digit MNC, TACs, DNN text of any length) and compared with an independent description of the layout written as term builders from 9.11.3.9, 9.11.3.29, 9.11.3.30, 9.11.3.37, 9.11.3.46 and 9.11.3.49; the decoders are also run on arbitrary octets: every returned entry must be the value found at its offset, entries must tile the contents, and malformed lengths must be errors."
+	rep.Explain = "Per-entry converters (SnssaiToNas, RejectedSnssaiToNas, SnssaiToModels, snssaiToModels) carry contracts stating the octets / fields of TS 24.501 9.11.2.8 and 9.11.3.46 and are proved for all values. The list encoders and decoders are executed symbolically with the loops unrolled on lists of every length up to the bound stated per function (entries fully symbolic: SST, SD present or absent, PLMN digits with 2- or 3-digit MNC, TACs, DNN text of any length) and compared with an independent description of the layout written as term builders from 9.11.3.9, 9.11.3.29, 9.11.3.30, 9.11.3.37, 9.11.3.46 and 9.11.3.49; the decoders are also run on arbitrary octets: every returned entry must be the value found at its offset, entries must tile the contents, and malformed lengths must be errors. For RequestedNssaiToModels the same statement is also proved per iteration for contents with ANY number of entries: the loop is cut at its invariant and every iteration that continues is shown, from an arbitrary loop-head state, to have read a legal length octet, to stay within the contents, to advance the offset by exactly length + 1 and to append exactly one entry, the S-NSSAI value found at the offset (induction over iterations on paper)."
 	jobs := ContractJobs(w, rep, []string{"nasConvert.SnssaiToModels", "nasConvert.SnssaiToNas", "nasConvert.RejectedSnssaiToNas", "nasConvert.snssaiToModels"})
 	RunJobs(w, rep, jobs)
 
-	// list functions: loops executed directly
+	// NSSAI decoder for any number of entries: step relation at the loop cut
 	base := w.Cx.Loops
+	nsJob, nsLoops := nssaiStepJob(w, base)
+	w.Cx.Loops = nsLoops
+	RunJobs(w, rep, []Job{nsJob})
+	w.Cx.Loops = base
+	// list functions: loops executed directly
 	w.Cx.Loops = func(fn *ssa.Function, ord int) *sym.LoopSpec {
 		switch fn.Name() {
 		case "RequestedNssaiToModels", "LadnToModels":
@@ -607,7 +741,7 @@ func c13(w *core.World, rep *core.Report) {
 	rep.Bounded = append(rep.Bounded,
 		core.Bounded{Function: "nasConvert.TaiListToNas", Bound: fmt.Sprintf("lists of 1..%d TAIs (the property's range), all contents symbolic", maxTai)},
 		core.Bounded{Function: "nasConvert.RejectedNssaiToNas", Bound: fmt.Sprintf("two lists with up to %d entries together (quick: all pairs up to 4 in total plus one-sided, empty and equal splits up to %d)", maxRej, maxRej)},
-		core.Bounded{Function: "nasConvert.RequestedNssaiToModels", Bound: fmt.Sprintf("contents that decode into at most %d entries (the NSSAI maximum); arbitrary octets otherwise", maxNssai)},
+		core.Bounded{Function: "nasConvert.RequestedNssaiToModels", Bound: fmt.Sprintf("complete result list: contents that decode into at most %d entries (the NSSAI maximum); arbitrary octets otherwise. The per-iteration step relation (legal length octet, entry within the contents, offset advances by length + 1, exactly one entry appended and it is the value at the offset) holds for any number of entries", maxNssai)},
 		core.Bounded{Function: "nasConvert.PartialServiceAreaListToNas", Bound: "one area with 1..16 TACs and five multi-area shapes (up to 16 TACs), both restriction types"},
 		core.Bounded{Function: "nasConvert.LadnToNas", Bound: fmt.Sprintf("DNN text of any length up to 255 octets, TAI lists of 1..%d entries", maxLadn)},
 		core.Bounded{Function: "nasConvert.LadnToModels", Bound: fmt.Sprintf("contents that decode into at most %d DNNs", maxNssai)})
@@ -615,5 +749,6 @@ func c13(w *core.World, rep *core.Report) {
 	rep.AddUnique(&rep.Assumptions,
 		"inputs of the encoders are well-formed in the sense of the property: SD absent or 6 hexadecimal digits, MCC 3 digits, MNC 2 or 3 digits, TAC 6 hexadecimal digits, at least one TAI / TAC; ill-formed text is logged and skipped by the library and is outside the statement",
 		"the DNN value inside a LADN entry is compared octet for octet with the text given; neither LadnToNas nor LadnToModels applies the label coding of 9.11.2.1B",
+		"RequestedNssaiToModels step relation: the entry checked is the one-element argument of the loop's only append, whose result is the list carried to the next iteration; that append keeps the earlier entries is Go's semantics of append, not an obligation (slices of structs of symbolic length have no tracked contents in the engine)",
 		"trusted models: hex.DecodeString / EncodeToString, reflect.DeepEqual on *models.PlmnId (field-wise string equality), strconv.Atoi on single characters")
 }
